@@ -21,7 +21,10 @@
      (iii) STAMP    stamp_accepts and the three transcribed reuse sites
    All functions are total and computable; `None` = the action is not enabled in that state. *)
 From Salsa Require Import Base.
-From Salsa.Cancel Require Import TokK.   (* <- swap point for translator-generated k_tok_* *)
+(* SWAP POINT (one line): TokKGen = kernels translated from the Rust source (coq/gen/Kernels.v);
+   TokK = the hand-transcribed stand-in with the same interface.  Every file of this layer gets
+   the kernels through this export. *)
+From Salsa.Cancel Require Export TokKGen.
 
 (* ------------------------------------------------------------------------------------- *)
 (* (0) unwind_if_revision_cancelled                                                       *)
